@@ -90,3 +90,17 @@ package triple
 //@   pure
 //@   requires t != nil
 //@   ensures result == tstr(t)
+
+// ---- Reification (C04) ----------------------------------------------------------------------
+// The triple itself plus three triples on ONE fresh blank node: _subject -> the subject,
+// _predicate -> the predicate, _object -> the object; the reification predicates are temporal with the
+// same anchor exactly when the triple's predicate is.
+//@ props C04 C08
+//@ spec macro reifPred(q *predicate.Predicate, id string, p *predicate.Predicate) Bool = q != nil && q.id == id && (q.anchor == nil) == (p.anchor == nil) && (p.anchor != nil ==> deref(q.anchor) == deref(p.anchor))
+//@ func (t *Triple) Reify
+//@   requires wfTriple(t)
+//@   ensures[no-error] result2 == nil
+//@   ensures[four-triples-one-fresh-node] len(result0) == 4 && result0[0] == t && result1 != nil && fresh(result1) && deref(result1.t) == "/_"
+//@   ensures[subject-triple] result0[1] != nil && fresh(result0[1]) && result0[1].s == result1 && reifPred(result0[1].p, "_subject", t.p) && result0[1].o != nil && result0[1].o.n == t.s && result0[1].o.p == nil && result0[1].o.l == nil
+//@   ensures[predicate-triple] result0[2] != nil && fresh(result0[2]) && result0[2].s == result1 && reifPred(result0[2].p, "_predicate", t.p) && result0[2].o != nil && result0[2].o.p == t.p && result0[2].o.n == nil && result0[2].o.l == nil
+//@   ensures[object-triple] result0[3] != nil && fresh(result0[3]) && result0[3].s == result1 && reifPred(result0[3].p, "_object", t.p) && result0[3].o != nil && ite(t.o.p != nil, result0[3].o.p == t.o.p && result0[3].o.n == nil && result0[3].o.l == nil, ite(t.o.n != nil, result0[3].o.n == t.o.n && result0[3].o.p == nil && result0[3].o.l == nil, result0[3].o.l == t.o.l && result0[3].o.n == nil && result0[3].o.p == nil))
